@@ -1,4 +1,4 @@
-import Octo.Lemmas.PlanRemoveRule
+import Octo.Lemmas.PlanPrunable
 import Octo.Lemmas.PlanExamples
 /-!
   C04 — Query optimization never changes results.
@@ -12,8 +12,11 @@ import Octo.Lemmas.PlanExamples
     declared schemas of filters / joins / pass-through nodes agree with their inputs, every expression refers to
     fields of its input (or of an enclosing lookup-join record) and cannot fail, `=` has two arguments, the
     datasources can deliver their declared fields, the right side of a lookup join cannot fail;
-  * `MapRemovable p` (only for `RemoveUnusedMapFields`): no field of a Map node reaches an ORDER BY / LIMIT node,
-    an outer join, a group-by / datasource / table valued function schema or the source side of a lookup join.
+  * `MapRemovable p` / `DatasourceRemovable p` / `GroupByRemovable p` (for the three removal rules): no field of a Map
+    node / a datasource / no aggregate of a group-by reaches an ORDER BY / LIMIT node, an outer join, a table valued
+    function schema, a group-by key or the source side of a lookup join, and no two kinds of node declare the same name;
+  * `Prunable p` (for the whole optimizer): all three, for all fields of those nodes.
+  Group-by nodes must in addition not be able to fail (e.g. no `sum` over a column that may hold a String).
 
   The results are compared as bags (`bagEq`); in fact the model's nested-loop order makes them equal as lists.
 -/
@@ -83,6 +86,20 @@ theorem removeUnusedMapFields_sound (db : Db) (p p' : Plan) (c : Bool)
   obtain ⟨h1, h2, h3⟩ := removeUnusedMapFields_ok db [] p p' c hw hr h
   exact ⟨h1, h2, bagEq_of_eq (h3 [] binds_nil)⟩
 
+/-- `RemoveUnusedDatasourceFields`: the whole loop over the collected fields -/
+theorem removeUnusedDatasourceFields_sound (db : Db) (p p' : Plan) (c : Bool)
+    (hw : WellFormed db p) (hr : DatasourceRemovable p) (h : removeUnusedDatasourceFields p = some (p', c)) :
+    WellFormed db p' ∧ p'.schema = p.schema ∧ bagEq (denote db p' []) (denote db p []) := by
+  obtain ⟨h1, h2, h3⟩ := removeUnusedDatasourceFields_ok db [] p p' c hw hr h
+  exact ⟨h1, h2, bagEq_of_eq (h3 [] binds_nil)⟩
+
+/-- `RemoveUnusedGroupByNonKeyFields`: the whole loop over the collected fields -/
+theorem removeUnusedGroupByNonKeyFields_sound (db : Db) (p p' : Plan) (c : Bool)
+    (hw : WellFormed db p) (hr : GroupByRemovable p) (h : removeUnusedGroupByNonKeyFields p = some (p', c)) :
+    WellFormed db p' ∧ p'.schema = p.schema ∧ bagEq (denote db p' []) (denote db p []) := by
+  obtain ⟨h1, h2, h3⟩ := removeUnusedGroupByNonKeyFields_ok db [] p p' c hw hr h
+  exact ⟨h1, h2, bagEq_of_eq (h3 [] binds_nil)⟩
+
 /-- one removal step erases the field from every record of every sub-plan (the simulation behind the rule) -/
 theorem removeField_simulation (db : Db) (f : String) (p p' : Plan) (outer : List String) (ctx : Ctx)
     (hg : Good db p outer) (hu : usedBelow f p = false) (hr : Removable f p) (h : rmPlan f p = some p')
@@ -91,10 +108,10 @@ theorem removeField_simulation (db : Db) (f : String) (p p' : Plan) (outer : Lis
   (rm_sim db f p outer p' hg hu hr h).sim ctx hb
 
 /-- the two `TransformNode` passes of one removal step compute `rmPlan` -/
-theorem removal_passes_eq (f : String) (p : Plan) (h : AllNodup p) :
+theorem removal_passes_eq (f : String) (p : Plan) (h : AllNodup p) (hg : NoGroupByHas f p) :
     (match mapNodes (removeMapFieldLocal f) p with
      | some p1 => removeFieldFromPassers f p1
-     | none => none) = rmPlan f p := twoPass f p h
+     | none => none) = rmPlan f p := twoPass f p h hg
 
 /-! ### the fixpoint -/
 
@@ -133,6 +150,15 @@ theorem optimize_filter_rules_sound (db : Db) (rs : List Rule) (hrs : rulesOfNam
     WellFormed db p' ∧ p'.schema = p.schema ∧ bagEq (denote db p' []) (denote db p []) :=
   optimizeWith_sound db rs (filterRules_ok db rs hrs) fuel p p' hw h
 
+/-- `optimizer.Optimize` itself — the rule list the translator read from optimizer/optimize.go, all eight rules, any
+    number of passes — never changes the result of a well-formed plan whose Map, datasource and aggregate fields are
+    removable; the optimized plan is again well-formed and prunable -/
+theorem optimize_sound (db : Db) (fuel : Nat) (p p' : Plan) (hw : WellFormed db p) (hp : Prunable p)
+    (h : optimize fuel p = .ok p') :
+    WellFormed db p' ∧ Prunable p' ∧ p'.schema = p.schema ∧ bagEq (denote db p' []) (denote db p []) := by
+  obtain ⟨⟨h1, h2, h3⟩, h4⟩ := optimize_ok db fuel [] p p' hw hp h
+  exact ⟨h1, h4, h2, bagEq_of_eq (h3 [] binds_nil)⟩
+
 /-! ### the property -/
 
 /-- C04 at full strength: on every well-formed plan and every database, whatever the real rule list makes of the plan
@@ -157,10 +183,10 @@ theorem C04_refuted : ¬ Statement := by
 /-- What does hold (for every plan, database and pass bound):
     1. every rule of the generated list has a model, and the five filter-moving rules are sound one by one;
     2. `Optimize` restricted to them (in the generated order) never changes the result;
-    3. `RemoveUnusedMapFields` is sound on plans whose Map fields are removable (`MapRemovable` excludes exactly the
-       shapes of `C04_refuted`: a field that reaches an ORDER BY / LIMIT, and the shapes the proof does not cover).
-    `RemoveUnusedGroupByNonKeyFields` and `RemoveUnusedDatasourceFields` are covered by the correspondence and the
-    differential run only. -/
+    3. the three removal rules are sound on plans whose Map / datasource / aggregate fields are removable (`Removable`
+       excludes exactly the shape of `C04_refuted` — a field that reaches an ORDER BY / LIMIT — and the shapes the proof
+       does not cover: outer joins, the source side of a lookup join);
+    4. the real `Optimize` (all eight rules) never changes the result of a well-formed prunable plan. -/
 theorem C04_partial (db : Db) :
     defaultRules.isSome = true ∧
     Sound db pushDownFilterPredicatesToDatasource ∧ Sound db pushDownFilterPredicatesIntoLookupJoinBranch ∧
@@ -170,11 +196,20 @@ theorem C04_partial (db : Db) :
       optimizeWith rs fuel p = .ok p' →
       WellFormed db p' ∧ p'.schema = p.schema ∧ bagEq (denote db p' []) (denote db p [])) ∧
     (∀ (p p' : Plan) (c : Bool), WellFormed db p → MapRemovable p → removeUnusedMapFields p = some (p', c) →
-      WellFormed db p' ∧ p'.schema = p.schema ∧ bagEq (denote db p' []) (denote db p [])) :=
+      WellFormed db p' ∧ p'.schema = p.schema ∧ bagEq (denote db p' []) (denote db p [])) ∧
+    (∀ (p p' : Plan) (c : Bool), WellFormed db p → DatasourceRemovable p → removeUnusedDatasourceFields p = some (p', c) →
+      WellFormed db p' ∧ p'.schema = p.schema ∧ bagEq (denote db p' []) (denote db p [])) ∧
+    (∀ (p p' : Plan) (c : Bool), WellFormed db p → GroupByRemovable p → removeUnusedGroupByNonKeyFields p = some (p', c) →
+      WellFormed db p' ∧ p'.schema = p.schema ∧ bagEq (denote db p' []) (denote db p [])) ∧
+    (∀ (fuel : Nat) (p p' : Plan), WellFormed db p → Prunable p → optimize fuel p = .ok p' →
+      WellFormed db p' ∧ Prunable p' ∧ p'.schema = p.schema ∧ bagEq (denote db p' []) (denote db p [])) :=
   ⟨all_rules_modelled, pushToDatasource_sound db, pushIntoLookupJoinBranch_sound db, pushIntoStreamJoinBranch_sound db,
    pushIntoStreamJoinKey_sound db, mergeFilters_sound db,
    fun rs hrs fuel p p' hw h => optimize_filter_rules_sound db rs hrs fuel p p' hw h,
-   fun p p' c hw hr h => removeUnusedMapFields_sound db p p' c hw hr h⟩
+   fun p p' c hw hr h => removeUnusedMapFields_sound db p p' c hw hr h,
+   fun p p' c hw hr h => removeUnusedDatasourceFields_sound db p p' c hw hr h,
+   fun p p' c hw hr h => removeUnusedGroupByNonKeyFields_sound db p p' c hw hr h,
+   fun fuel p p' hw hp h => optimize_sound db fuel p p' hw hp h⟩
 
 /-! ### non-vacuity -/
 
@@ -191,5 +226,17 @@ example : (denote Examples.dbJ Examples.pJ []).map List.length = some 2 := rfl
 example : MapRemovable Examples.pM := Examples.pM_removable
 example : WellFormed Examples.db0 Examples.pM := Examples.pM_wellFormed
 example : ∃ q, removeUnusedMapFields Examples.pM = some (q, true) := ⟨_, rfl⟩
+
+-- the real optimizer on a well-formed, prunable join query: filters pushed, key extracted, columns pruned
+example : WellFormed Examples.dbJ Examples.pJ2 ∧ Prunable Examples.pJ2 := ⟨Examples.pJ2_wellFormed, Examples.pJ2_prunable⟩
+example : ∃ q, optimize 64 Examples.pJ2 = .ok q ∧ (denote Examples.dbJ q []).map List.length = some 2 ∧
+    q.fields = ["q.b_0", "q.c_0"] := ⟨_, rfl, rfl, rfl⟩
+-- … and on a group-by whose aggregates are unused: they are removed, the two groups stay
+example : WellFormed Examples.db0 Examples.pG ∧ Prunable Examples.pG := ⟨Examples.pG_wellFormed, Examples.pG_prunable⟩
+example : ∃ q, optimize 64 Examples.pG = .ok q ∧
+    (match q with | .un _ _ g => g.fields | _ => []) = ["g.k_0"] ∧
+    (denote Examples.db0 q []).map List.length = (denote Examples.db0 Examples.pG []).map List.length :=
+  ⟨_, rfl, rfl, rfl⟩
+-- (the refutation witness is well-formed but not prunable: its Map fields reach the ORDER BY … LIMIT node)
 
 end Octo.C04
